@@ -72,7 +72,7 @@ def ob_update_params_paused(ctx):
             if nleg > 0:
                 cl.append((stays_paused, 'the hub cannot be unpaused while legacy wait-list entries remain', 'update_params:legacy'))
             ctx.require_all(st, cl, W.mv)
-            ctx.witness('owner unpauses with %d legacy entries' % nleg, st, [z3.Not(stays_paused)], W.mv)
+            ctx.witness('owner unpauses with %d legacy entries' % nleg, st, [z3.Not(stays_paused)], W.mv, expect='ok')
             # transparency: only the parameters item is written
             for ev in st.log:
                 if ev[0] == 'write' and ev[2] != ('K', b'\x00\x0bparameteres'):
